@@ -282,6 +282,8 @@ pub struct CliOpts {
     /// kill the process group with SIGKILL after this delay
     pub kill_after: Option<Duration>,
     pub timeout: Option<Duration>,
+    /// bytes offered on the child's standard input (default: /dev/null)
+    pub stdin_data: Option<Vec<u8>>,
 }
 
 pub fn cli_bin() -> PathBuf {
@@ -309,7 +311,7 @@ pub fn run_cli(cwd: &Path, args: &[String], opts: &CliOpts) -> CliOutcome {
     for k in &opts.env_remove {
         cmd.env_remove(k);
     }
-    cmd.stdin(Stdio::null()).stdout(Stdio::piped()).stderr(Stdio::piped());
+    cmd.stdin(if opts.stdin_data.is_some() { Stdio::piped() } else { Stdio::null() }).stdout(Stdio::piped()).stderr(Stdio::piped());
     let fsize = opts.fsize_limit;
     unsafe {
         cmd.pre_exec(move || {
@@ -331,6 +333,14 @@ pub fn run_cli(cwd: &Path, args: &[String], opts: &CliOpts) -> CliOutcome {
         }
     };
     let pid = child.id() as i32;
+    if let Some(data) = &opts.stdin_data {
+        if let Some(mut si) = child.stdin.take() {
+            let data = data.clone();
+            std::thread::spawn(move || {
+                let _ = std::io::Write::write_all(&mut si, &data);
+            });
+        }
+    }
     let timeout = opts.timeout.unwrap_or(Duration::from_secs(watchdog_secs()));
     let mut timed_out = false;
     // reader threads so a full pipe cannot block the child
